@@ -294,6 +294,7 @@ def check_bph_branches(chk) -> None:
     repo = chk.repo
     fi = repo.func(AN, "find_pairs")
     chk.note_function(fi)
+    fi = c03e.unfolded(repo, fi)
     fm = FlowMap(fi.node)
     loop = c03.kd_loop(chk, fi)
     chk.robust |= {"bph-branch", "bph-record", "result-order"}
